@@ -1,6 +1,6 @@
 From stdpp Require Import list numbers option.
 From RecordUpdate Require Import RecordUpdate.
-From L2 Require Import Model Base Own Jobs Shape DwInv Wake WakeInv WakeLem WakeStep1 WakeStep2 WakeStep3 WakeStep4.
+From L2 Require Import Model Base Own Jobs Shape DwInv Wake WakeInv WakeLem WakeStep1 WakeStep2 WakeStep3 WakeStep4 WakeStep5.
 #[global] Unset Lia Cache.
 
 Section Pres.
@@ -16,7 +16,7 @@ Section Pres.
     all: pose proof (stacks_lookup _ _ _ Ea) as Hst; rewrite Est in Hst.
     all: try match goal with k : kont |- _ => destruct k end.
     all: match goal with |- Inv_wake ?s' =>
-           try (assert (Q : qview s s') by (eapply qview_intro; [exact Hst|solve_stacks|reflexivity|reflexivity|reflexivity|reflexivity|solve_toks])) end.
+           try (assert (Q : qview s s') by first [eapply qview_intro; [exact Hst|solve_stacks|reflexivity|reflexivity|reflexivity|reflexivity|solve_toks] | eapply (qview_intro_alloc _ _ _ _ _ 2); [exact Hst|solve_stacks|reflexivity|reflexivity|reflexivity|reflexivity|solve_toks] ]) end.
     (* ---- quiet steps ---- *)
     all: try (lazymatch goal with Q : qview _ _ |- _ => idtac | |- _ => shelve end).
     all: split.
@@ -118,8 +118,21 @@ Section Pres.
     all: try (eapply ws_dqwfp; hyp; fail).
     all: try (eapply ws_await_pending; hyp; fail).
     all: try (eapply ws_await_either_pending; hyp; fail).
+    (* future_sync *)
+    all: try (eapply ws_send_ready; hyp; fail).
+    all: try (eapply ws_await_done_pending; hyp; fail).
+    all: try (lazymatch goal with |- Inv_wake (setstack (setev (addlog ?s0 ?l0) _ _) _ (wake_frames _ ++ ?rest0)) =>
+              eapply (ws_fire_gen (addlog s0 l0) a _ [] _ rest0 (Inv_own_addlog _ _ HO) (Inv_wake_addlog _ _ HI) Hst); [reflexivity|by intros ? ?%elem_of_nil] end; fail).
+    all: try (lazymatch goal with |- Inv_wake (setstack (setev _ _ _) _ (wake_frames _ ++ ?x :: ?rest0)) =>
+              eapply (ws_fire_gen s a _ [x] _ rest0 HO HI Hst); [reflexivity|intros ? ->%elem_of_list_singleton; done] end; fail).
     all: try (eapply (ws_signal _ _ _ _ _ _ _ _ _ _ HO HI Hst); reflexivity).
     all: try (eapply (ws_release_idle _ _ _ _ []); [exact HO|exact HI|exact Hst|reflexivity|]; by intros ? ?%elem_of_nil).
+    (* the SyncFuture's owner: its own task-waker registrations and its own park token *)
+    all: try (lazymatch goal with |- Inv_wake ?s1 =>
+              eapply (ws_task_step s s1 a _ _ rest HO HS HI Hst); [solve_stacks|reflexivity..| | ];
+              [ intros c0 Hne; first [ rewrite (tokb_toks s s1 c0 ltac:(solve_toks)); done | rewrite tokb_setstack, tokb_set_ne by done; done ]
+              | first [ apply evs_task_eq_refl; reflexivity | apply evs_reg_task | apply evs_unreg_task
+                      | eapply evs_task_eq_trans; [apply evs_reg_task|apply evs_reg_task] ] ] end; fail).
     (* DrainWaker tables *)
     all: try (match goal with E1 : t_dw_wake _ ?d0 = _ |- _ => rewrite (wc_dw_wake _ HW) in E1; destruct d0; try discriminate E1; injection E1 as <- end).
     all: try (match goal with E1 : t_dw_wake_with _ ?d0 = _ |- _ => rewrite (wc_dw_wake_with _ HW) in E1; destruct d0; try discriminate E1; injection E1 as <- end).
